@@ -62,7 +62,7 @@ def classes(tier):
 
 
 def n_runs(tier):
-    return 4_000 if tier == "quick" else 50_000
+    return 4_000 if tier == "quick" else 150_000
 
 
 def _outcome(fn):
